@@ -89,6 +89,23 @@ class FnRef(V):
         self.node, self.module = node, module
 
 
+class PartialV(V):
+    """functools.partial(callee, *args, **kw) -- callee a ClassRef / FnRef / LambdaV"""
+    def __init__(self, callee, args, kw):
+        self.callee, self.args, self.kw = callee, list(args), dict(kw)
+
+    def __repr__(self):
+        return f"partial({self.callee!r})"
+
+
+class LambdaV(V):
+    def __init__(self, node, env, self_inst, cls):
+        self.node, self.env, self.self_inst, self.cls = node, env, self_inst, cls
+
+    def __repr__(self):
+        return "<lambda>"
+
+
 class _Raise(Exception):
     pass
 
@@ -208,6 +225,49 @@ class Interp:
             return UNK
         if isinstance(e, ast.Call):
             return self.call(e, env, self_inst, cls)
+        if isinstance(e, ast.Lambda):
+            return LambdaV(e, dict(env), self_inst, cls)
+        return UNK
+
+    def imported_fn(self, name, cls):
+        """a function the module of *cls* defines or imports from another module of the package -> FunctionDef or None"""
+        if cls not in self.repo.classes:
+            return None
+        mod = self.repo.classes[cls].module
+        if name in mod.functions:
+            return mod.functions[name]
+        if name in mod.imports:
+            src, orig = mod.imports[name]
+            tgt = None
+            if src in (self.repo.PKG, "."):
+                tgt = "__init__"
+            elif src.startswith(".") or src.startswith(self.repo.PKG + "."):
+                tgt = src.lstrip(".").split(".")[-1]
+            if tgt in self.repo.modules and orig in self.repo.module(tgt).functions:
+                return self.repo.module(tgt).functions[orig]
+        return None
+
+    def apply(self, callee, args, kw, self_inst, cls):
+        """call of a value: a class, a function of the package, a partial or a lambda"""
+        if isinstance(callee, ClassRef):
+            return self.instantiate(callee.name, args, kw)
+        if isinstance(callee, FnRef) and self.depth < MAX_DEPTH:
+            return self.run_fn(callee.node, self_inst, cls, args, kw, bind_self=False)
+        if isinstance(callee, PartialV):
+            merged = dict(callee.kw)
+            merged.update(kw)
+            return self.apply(callee.callee, callee.args + list(args), merged, self_inst, cls)
+        if isinstance(callee, LambdaV) and self.depth < MAX_DEPTH:
+            a = callee.node.args
+            env2 = dict(callee.env)
+            for p_, v_ in zip([x.arg for x in a.posonlyargs + a.args], args):
+                env2[p_] = v_
+            env2.update(kw)
+            self.depth += 1
+            try:
+                return self.ev(callee.node.body, env2, callee.self_inst, callee.cls)
+            finally:
+                self.depth -= 1
         return UNK
 
     def issub(self, c, base):
@@ -238,6 +298,17 @@ class Interp:
             for a_, b_ in kw.items():
                 d.set(a_, b_)
             return d
+        if isinstance(f, ast.Attribute) and f.attr == "update" and not starred:
+            base = self.ev(f.value, env, self_inst, cls)
+            if isinstance(base, DictV):
+                if len(args) == 1 and isinstance(args[0], DictV):
+                    for a_, b_ in args[0].items:
+                        base.set(a_, b_)
+                elif args:
+                    raise AnalysisError(f"dict.update with an argument the table evaluation cannot read: {norm(e, 60)}")
+                for a_, b_ in kw.items():
+                    base.set(a_, b_)
+                return NONE
         if isinstance(f, ast.Attribute) and f.attr in ("items", "keys", "values") and not e.args:
             base = self.ev(f.value, env, self_inst, cls)
             if isinstance(base, DictV):
@@ -246,6 +317,10 @@ class Interp:
                 if f.attr == "keys":
                     return Tup(Const(k) for k, _ in base.items)
                 return Tup(v for _, v in base.items)
+        if fs.split(".")[-1].lstrip("_") == "partial" and args and not starred and isinstance(args[0], (ClassRef, FnRef, LambdaV, PartialV)):
+            return PartialV(args[0], args[1:], kw)
+        if isinstance(f, ast.Name) and isinstance(env.get(f.id), (PartialV, LambdaV)) and not starred:
+            return self.apply(env[f.id], args, kw, self_inst, cls)
         if isinstance(f, ast.Name) and isinstance(env.get(f.id), FnRef) and not starred and self.depth < MAX_DEPTH:
             fr = env[f.id]
             saved_mod = getattr(self, "modenv", None)
@@ -291,10 +366,9 @@ class Interp:
             if starred:
                 return Inst(callee.name)
             return self.instantiate(callee.name, args, kw)
-        # a function of the module the code lives in
+        # a function of the module the code lives in, or one it imports from another module of the package
         if isinstance(f, ast.Name) and cls in self.repo.classes and not starred:
-            mod = self.repo.classes[cls].module
-            hfn = mod.functions.get(f.id)
+            hfn = self.imported_fn(f.id, cls)
             if hfn is not None and self.depth < MAX_DEPTH:
                 return self.run_fn(hfn, self_inst, cls, args, kw, bind_self=False)
         # helper of the class: self.h(...) / Cls.h(...)
